@@ -57,7 +57,11 @@ def gen_script(rng, st, projs):
             text, ast = c12.gen_step(rng, g)
             cmd = (rng.choice(['filter', 'f', 'wlf']) + ' ' + text, 'filter', ast)
         elif r < 0.85:
-            arg = rng.choice(names + names + ['all', 'bogus', rng.choice(names).lower()])
+            appids = [streams.app_id_of(e['rec']) for e in st['entries']]
+            appids = [a for a in appids if a and ' ' not in a]
+            arg = rng.choice(names + names + ['all', 'bogus', rng.choice(names).lower()] + appids[:6])
+            if appids and rng.random() < 0.3:
+                arg = rng.choice(appids)
             cmd = (rng.choice(['connection', 'c', 'conn']) + ' ' + arg, 'connection', arg)
         else:
             cmd = (rng.choice(['list', 'list ~ 2', 'list ' + names[0] + ':', 'filter', 'connection', 'help', 'matcher wl_surface']), 'neutral', None)
@@ -74,7 +78,7 @@ def run_one(ctx, rng, cands, spec):
     install_snapshot()
     from frontends.tui.controller import Controller
     k = rng.randint(2, 4)
-    st = streams.build(rng, cands, k=k, n_each=tuple(spec['n_each']), tagged=True)
+    st = streams.build(rng, cands, k=k, n_each=tuple(spec['n_each']), tagged=True, opts={'titles': rng.choice([0.02, 0.1])})
     projs = [c05.project(e, st['names'][e['ci']], st['dialect']) for e in st['entries']]
     hooks, f_text, f_ast = gen_script(rng, st, projs)
     lines = [e['line'] for e in st['entries']]
@@ -91,6 +95,7 @@ def run_one(ctx, rng, cands, spec):
     state = joinref.from_matcher(f_ast) if f_ast is not None else ('const', True)
     selection = None
     opened = []
+    app_ids = {}
     cmd_meta = {}
     for p, v in hooks.items():
         for c in v:
@@ -123,15 +128,17 @@ def run_one(ctx, rng, cands, spec):
                 if arg == 'all':
                     selection = None
                 else:
-                    hit = [n for n in opened if n.lower() == arg.lower()]
+                    hit = streams.select_connection(arg, opened, app_ids)
                     if hit:
-                        selection = hit[0]
+                        selection = hit
         if idx == len(lines):
             break
         e = st['entries'][idx]
         name = st['names'][e['ci']]
         if name not in opened:
             opened.append(name)
+        if streams.app_id_of(e['rec']):
+            app_ids[name] = streams.app_id_of(e['rec'])
         lo, hi = joinref.selected(state, projs[idx])
         in_sel = selection is None or selection == name
         shown = [o for o in outs_for.get(idx, []) if outline.parse_line(o)['kind'] == 'msg']
@@ -189,11 +196,105 @@ def run_one(ctx, rng, cands, spec):
         ctx.sample({'filter': f_text, 'hooks': case['hooks'], 'shown': n_shown, 'hidden': n_hidden, 'lines_head': lines[:2]})
 
 
+def run_late(ctx, rng, cands, spec):
+    """a log attached late (the lines creating some objects are missing -> unresolved objects).  Oracle: the text each line
+    has in a plain run without filter / selection, the tool's own matcher verdict at arrival (snapshot), and the selection
+    model: shown iff verdict and (nothing selected or the line's connection selected)."""
+    install_snapshot()
+    from frontends.tui.controller import Controller
+    k = rng.randint(2, 3)
+    st = streams.build(rng, cands, k=k, n_each=tuple(spec['n_each']), tagged=True)
+    victim = rng.randrange(k)
+    cut = rng.randint(1, max(1, sum(1 for e in st['entries'] if e['ci'] == victim) // 2))
+    seen = 0
+    entries = []
+    for e in st['entries']:
+        if e['ci'] == victim and seen < cut:
+            seen += 1
+            continue
+        entries.append(e)
+    lines = [e['line'] for e in entries]
+    names = {}
+    for e in entries:
+        if e['ci'] not in names:
+            names[e['ci']] = streams.conn_name(len(names))
+    ref = Session()
+    ref.feed([l + '\n' for l in lines])
+    per = ref.per_read()
+    ref_text = {}
+    for i in range(len(lines)):
+        ms = [p for kk, p in per.get(i, []) if kk == 'out' and outline.parse_line(p)['kind'] == 'msg']
+        if len(ms) != 1:
+            return
+        ref_text[i] = ms[0].strip().split(' ', 1)[1]
+    hooks = {}
+    e0 = rng.choice(entries)
+    for _ in range(rng.randint(1, 6)):
+        pos = rng.randint(0, len(lines))
+        if rng.random() < 0.7:
+            arg = rng.choice(list(names.values()) + ['all'])
+            hooks.setdefault(pos, []).append(('connection ' + arg, 'connection', arg))
+        else:
+            t = rng.choice([e0['rec']['iface'], '! ' + e0['rec']['iface'], '.' + e0['rec']['name'], 'wl_*', '*'])
+            hooks.setdefault(pos, []).append(('filter ' + t, 'filter', None))
+    del Controller._verif_log[:]
+    s = Session()
+    s.feed([l + '\n' for l in lines], hooks={p: [c[0] for c in v] for p, v in hooks.items()})
+    msgs = list(s.ctl.all_messages)
+    snap = {mid: (v, sel) for mid, v, sel in Controller._verif_log}
+    outs_for = {}
+    cur = None
+    for k2, p in s.events:
+        if k2 == 'read':
+            cur = p
+            outs_for[cur] = []
+        elif k2 in ('eof', 'cmd'):
+            cur = None
+        elif k2 == 'out' and cur is not None:
+            outs_for[cur].append(p)
+    selection = None
+    opened = []
+    case = {'lines': lines, 'filter': None, 'hooks': {str(p): [c[0] for c in v] for p, v in hooks.items()}, 'late': True}
+    unresolved = 0
+    for idx in range(len(lines)):
+        for c in hooks.get(idx, []):
+            if c[1] == 'connection':
+                if c[2] == 'all':
+                    selection = None
+                elif c[2] in opened:
+                    selection = c[2]
+        name = names[entries[idx]['ci']]
+        if name not in opened:
+            opened.append(name)
+        if idx >= len(msgs):
+            ctx.violation('not-recorded', '[late attach] %d messages recorded for %d lines' % (len(msgs), len(lines)), case)
+            return
+        verdict = snap.get(id(msgs[idx]), (None, None))[0]
+        if msgs[idx].obj.connection is None:
+            unresolved += 1
+        shown = [o for o in outs_for.get(idx, []) if outline.parse_line(o)['kind'] == 'msg']
+        want = bool(verdict) and (selection is None or selection == name)
+        ctx.ev()
+        if bool(shown) != want or len(shown) > 1:
+            ctx.violation('late-attach-shown', '[late attach] line %d %r of connection %s (unresolved target: %r): shown=%r, but the tool\'s own filter said %r and connection %r is selected' % (
+                idx, lines[idx][:100], name, msgs[idx].obj.connection is None, bool(shown), verdict, selection), dict(case, line_index=idx))
+            return
+        if shown and shown[0].strip().split(' ', 1)[1] != ref_text[idx]:
+            ctx.violation('shown-other-text', '[late attach] line %d shown as %r, in a plain run %r' % (idx, shown[0][:160], ref_text[idx][:160]), dict(case, line_index=idx))
+            return
+    ctx.count('late_sessions')
+    ctx.count('late_unresolved_messages', unresolved)
+    if unresolved:
+        ctx.sig(['late', h64(case)])
+
+
 def run(ctx, spec):
     env.setup()
     cands = wlxml.shipped(env.REPO)
     for i in range(spec['n']):
         run_one(ctx, ctx.rng, cands, spec)
+        if i % 3 == 0:
+            run_late(ctx, ctx.rng, cands, spec)
         if ctx.out_of_time():
             break
 
